@@ -272,6 +272,26 @@ func c11Locks(w *core.Worker, r *core.Rng, i int) {
 		w.Case(digest+"live"+st, res.Code == 8)
 	}
 	_ = baseSnap
+	// (5) --out: an output file that received nothing is removed again, wherever the procedure went in the meantime
+	for _, outp := range []string{"result.out", "sub/result.out", "ABS"} {
+		for _, prog := range []string{"SELECT * FROM no_such_table;", "VAR @x := 1; EXIT 3;", "VAR @x := 1;", "CHDIR 'sub'; SELECT * FROM no_such_table;", "CHDIR 'sub'; VAR @x := 1; EXIT 3;", "CHDIR 'sub'; VAR @x := 1;", "CHDIR 'sub'; CHDIR '..'; VAR @x := 1;", "UPDATE f1 SET c1 = 'o' WHERE id = 1; CHDIR 'sub'; EXIT;"} {
+			d := core.FreshDir(w.Work, "outd")
+			copyDir(base, d)
+			_ = os.MkdirAll(filepath.Join(d, "sub"), 0755)
+			op := outp
+			if op == "ABS" {
+				op = filepath.Join(d, "abs.out")
+			}
+			before := core.TakeSnap(d)
+			res := core.RunProc(core.ProcOpts{Dir: d, Args: csvqArgs("-q", "--out", op, prog), Timeout: 60 * time.Second})
+			df := core.Diff(before, core.TakeSnap(d))
+			if !df.Empty() {
+				w.Violation("out-file-left", fmt.Sprintf("csvq --out %s %q (exit %d) wrote no result but changed the repository: %s", outp, prog, res.Code, df), txReplay{Files: small(p.Files), Program: prog, Variant: "--out " + outp})
+			}
+			w.Count("out_file_runs", 1)
+			w.Case(digest+"out"+outp+prog, true)
+		}
+	}
 	// (4) racing acquisitions: A is held up at one step of its lock acquisition while B, started 150 ms later, is held up at one of its own
 	// (the oracle does not depend on the timing: whatever the two did, nothing may be left once both have ended)
 	type racer struct{ role, stmt, point string }
